@@ -266,68 +266,92 @@ def parseInits : Nat → List Tok → Option (List PInit × List Tok)
     | _ => none
 end
 
+/-- does the token list start a declaration (`specifier… name`)? -/
+def isDeclStart : List Tok → Bool
+  | .id _ :: .id _ :: _ => true
+  | _ => false
+
+/-- expression statement: `unary-expression (= | +=) conditional-expression ;` -/
+def parseAssignC (ts : List Tok) : Option (PS × List Tok) :=
+  match parseUnary (fuelFor ts) ts with
+  | none => none
+  | some (lhs, r) =>
+    match r with
+    | [] => none
+    | t :: r1 =>
+      if t = .p .assign ∨ t = .p .plusAssign then
+        match parseCond (fuelFor r1) r1 with
+        | none => none
+        | some (rhs, r2) =>
+          match r2 with
+          | [] => none
+          | t2 :: r3 => if t2 = .p .semi then some (.assign (decide (t = .p .plusAssign)) lhs rhs, r3) else none
+      else none
+
+/-- declaration: specifiers/qualifiers, declarator with constant dimensions, optional initialiser -/
+def parseDeclC (f : Nat) (ts : List Tok) : Option (PS × List Tok) :=
+  let (names, r1) := takeIds ts
+  let name := names.getLast?.getD ""
+  let quals := names.dropLast
+  if quals.all (fun q => cTypeWords.contains q) ∧ ¬ cKeywords.contains name then
+    let (dims, r2) := parseDims r1
+    match r2 with
+    | .p .semi :: r3 => some (.decl quals name dims none, r3)
+    | .p .assign :: r3 =>
+      match parseInit f r3 with
+      | some (x, .p .semi :: r4) => some (.decl quals name dims (some x), r4)
+      | _ => none
+    | _ => none
+  else none
+
+/-- `( int i = lo ; i < hi ; ++ i ) {` after the keyword `for`: index, bounds, rest -/
+def parseForHeadC (ts : List Tok) : Option (String × PT × PT × List Tok) :=
+  match ts with
+  | .p .lpar :: .id "int" :: .id i :: .p .assign :: r =>
+    match parseCond (fuelFor r) r with
+    | some (lo, .p .semi :: .id i2 :: .p .lt :: r2) =>
+      match parseCond (fuelFor r2) r2 with
+      | some (hi, .p .semi :: .p .incr :: .id i3 :: .p .rpar :: .p .lbrace :: r3) =>
+        if i2 = i ∧ i3 = i then some (i, lo, hi, r3) else none
+      | _ => none
+    | _ => none
+  | _ => none
+
 mutual
 def parseStmtC : Nat → List Tok → Option (PS × List Tok)
   | 0, _ => none
   | f + 1, ts =>
     match ts with
-    | .p .lbrace :: r =>
-      match parseStmtsC f r with
-      | some (ss, .p .rbrace :: r') => some (.block ss, r')
-      | _ => none
-    | .id "for" :: .p .lpar :: .id "int" :: .id i :: .p .assign :: r =>
-      match parseCond (fuelFor r) r with
-      | some (lo, .p .semi :: .id i2 :: .p .lt :: r2) =>
-        match parseCond (fuelFor r2) r2 with
-        | some (hi, .p .semi :: .p .incr :: .id i3 :: .p .rpar :: .p .lbrace :: r3) =>
-          if i2 = i ∧ i3 = i then
-            match parseStmtsC f r3 with
-            | some (body, .p .rbrace :: r4) => some (.loop i lo hi body, r4)
-            | _ => none
-          else none
+    | [] => none
+    | t :: r =>
+      if t = .p .lbrace then
+        match parseStmtsC f r with
+        | some (ss, .p .rbrace :: r') => some (.block ss, r')
         | _ => none
-      | _ => none
-    | .id _ :: .id _ :: _ =>
-      -- declaration: specifiers/qualifiers, declarator, optional initialiser
-      let (names, r1) := takeIds ts
-      let name := names.getLast?.getD ""
-      let quals := names.dropLast
-      if quals.all (fun q => cTypeWords.contains q) ∧ ¬ cKeywords.contains name then
-        let (dims, r2) := parseDims r1
-        match r2 with
-        | .p .semi :: r3 => some (.decl quals name dims none, r3)
-        | .p .assign :: r3 =>
-          match parseInit f r3 with
-          | some (x, .p .semi :: r4) => some (.decl quals name dims (some x), r4)
+      else if t = .id "for" then
+        match parseForHeadC r with
+        | none => none
+        | some (i, lo, hi, r3) =>
+          match parseStmtsC f r3 with
+          | some (body, .p .rbrace :: r4) => some (.loop i lo hi body, r4)
           | _ => none
-        | _ => none
-      else none
-    | _ =>
-      -- expression statement: unary-expression assignment-operator conditional-expression ;
-      match parseUnary (fuelFor ts) ts with
-      | some (lhs, .p .assign :: r) =>
-        match parseCond (fuelFor r) r with
-        | some (rhs, .p .semi :: r') => some (.assign false lhs rhs, r')
-        | _ => none
-      | some (lhs, .p .plusAssign :: r) =>
-        match parseCond (fuelFor r) r with
-        | some (rhs, .p .semi :: r') => some (.assign true lhs rhs, r')
-        | _ => none
-      | _ => none
+      else if isDeclStart (t :: r) then parseDeclC f (t :: r)
+      else parseAssignC (t :: r)
 /-- block-item-list up to (not including) `}` or the end -/
 def parseStmtsC : Nat → List Tok → Option (List PS × List Tok)
   | 0, _ => none
   | f + 1, ts =>
     match ts with
     | [] => some ([], [])
-    | .p .rbrace :: _ => some ([], ts)
-    | _ =>
-      match parseStmtC f ts with
-      | some (s, r) =>
-        match parseStmtsC f r with
-        | some (ss, r') => some (s :: ss, r')
+    | t :: r =>
+      if t = .p .rbrace then some ([], t :: r)
+      else
+        match parseStmtC f (t :: r) with
         | none => none
-      | none => none
+        | some (s, r') =>
+          match parseStmtsC f r' with
+          | none => none
+          | some (ss, r'') => some (s :: ss, r'')
 end
 
 /-- parse a complete C statement sequence -/
@@ -368,8 +392,8 @@ end
 
 /-- a real literal by its printed text; the sign is a unary minus -/
 def eraseReal (re : Rat) : PT :=
-  if re < 0 then .un .neg (.num (String.ofList (fmtFloat16 (-re))))
-  else .num (String.ofList (fmtFloat16 re))
+  if re < 0 then .un .neg (.num (String.ofList (reprFloat (-re))))
+  else .num (String.ofList (reprFloat re))
 
 def leftNestPT (op : BinOp) (unit : String) : List PT → PT
   | [] => .num unit
@@ -450,61 +474,34 @@ def numShape (cs : List Char) : Bool :=
   | [] => false
   | c :: r => c.isDigit && numContAll c r && (((c :: r).reverse).headD 'x').isDigit
 
-def isNegLit : Expr → Bool
-  | .litF re _ false => decide (re < 0)
-  | .litI v => decide (v < 0)
-  | _ => false
-
 /-- magnitude texts of a literal are single number tokens -/
 def litShapeOK : Expr → Bool
   | .litF re im c =>
-    numShape (fmtFloat16 (if re < 0 then -re else re))
-      && (if c then numShape (fmtFloat16 (if im < 0 then -im else im)) else decide (im = 0))
+    numShape (reprFloat (if re < 0 then -re else re))
+      && (if c then numShape (reprFloat (if im < 0 then -im else im)) else decide (im = 0))
   | .litI v => numShape (fmtInt (if v < 0 then -v else v))
   | _ => true
 
 mutual
 /-- Structural well-formedness for the C round trip: identifiers are identifiers, n-ary nodes and
-    subscript/argument lists are non-empty, literal texts are number tokens, a MultiIndex occurs
-    only directly as an array subscript (the only place the generators put one; see
-    `local_faithful_multiindex_counterexample`). No typing is needed for C. -/
+    subscript/argument lists are non-empty, literal texts are number tokens, a MultiIndex is
+    well-formed iff its global index is. No typing is needed for C. -/
 def wfC (sc : Scalar) : Expr → Bool
   | .litF re im c => litShapeOK (.litF re im c)
   | .litI v => litShapeOK (.litI v)
   | .sym n _ => validIdent n
-  | .mi _ _ _ => false
+  | .mi _ _ gi => wfC sc gi
   | .neg a => wfC sc a
   | .not a => wfC sc a
   | .bin _ a b => wfC sc a && wfC sc b
   | .sum args => !args.isEmpty && wfLC sc args
   | .prod args => !args.isEmpty && wfLC sc args
   | .call f dt args => validIdent (cMathName sc dt f) && !args.isEmpty && wfLC sc args
-  | .idx arr _ ix => validIdent arr && !ix.isEmpty && wfIxC sc ix
+  | .idx arr _ ix => validIdent arr && !ix.isEmpty && wfLC sc ix
   | .cond c t f => wfC sc c && wfC sc t && wfC sc f
 def wfLC (sc : Scalar) : List Expr → Bool
   | [] => true
   | a :: as => wfC sc a && wfLC sc as
-/-- subscripts: expressions, or a MultiIndex standing for its global index -/
-def wfIxC (sc : Scalar) : List Expr → Bool
-  | [] => true
-  | .mi _ _ gi :: as => wfC sc gi && wfIxC sc as
-  | a :: as => wfC sc a && wfIxC sc as
-end
-
-mutual
-/-- no unary operator is printed directly in front of a negative literal (`--2.0`, `--1`):
-    the only place where two emitted tokens are adjacent and fuse -/
-def noFuse : Expr → Bool
-  | .litF .. | .litI .. | .sym .. => true
-  | .mi _ _ gi => noFuse gi
-  | .neg a => !isNegLit a && noFuse a
-  | .not a => noFuse a
-  | .bin _ a b => noFuse a && noFuse b
-  | .sum args | .prod args | .call _ _ args | .idx _ _ args => noFuseL args
-  | .cond c t f => noFuse c && noFuse t && noFuse f
-def noFuseL : List Expr → Bool
-  | [] => true
-  | a :: as => noFuse a && noFuseL as
 end
 
 mutual
